@@ -174,7 +174,7 @@ def gen_c01_miri(tier, seed):
 def gen_c02(tier, seed):
     rng = random.Random(seed * 6007 + 2)
     out = []
-    N = 400 if tier == "quick" else 8000
+    N = 400 if tier == "quick" else 30000
     for idx in range(N):
         d = base_cfg(rng, idx, small=(tier == "quick" or rng.random() < 0.7))
         add_allocs(d, rng)
@@ -198,7 +198,7 @@ def gen_c03(tier, seed):
     Ts = list(range(1, 10)) + [16]
     combos = [(n, s, T) for n in ns for s in ss for T in Ts]
     rng.shuffle(combos)
-    take = combos[:350] if tier == "quick" else combos
+    take = combos[:350] if tier == "quick" else combos * 4
     for (n, s, T) in take:
         entry = rng.randrange(6)
         d = {"id": idx, "entry": entry, "T": T, "s": s, "cbase": rng.choice([1, 20]), "seed": rng.randrange(1 << 20), "fplog": 0}
@@ -215,7 +215,7 @@ def gen_c03(tier, seed):
         out.append(line(d))
         idx += 1
     # test mode and zero budgets
-    for _ in range(60 if tier == "quick" else 600):
+    for _ in range(60 if tier == "quick" else 3000):
         entry = rng.randrange(6)
         d = {"id": idx, "entry": entry, "T": rng.choice(Ts), "cbase": 5, "seed": rng.randrange(1 << 20), "fplog": 0}
         i, o = shapes_for(entry, rng)
@@ -254,7 +254,7 @@ def gen_c03(tier, seed):
 def gen_c04(tier, seed):
     rng = random.Random(seed * 3001 + 4)
     out = []
-    N = 500 if tier == "quick" else 10000
+    N = 500 if tier == "quick" else 60000
     for idx in range(N):
         entry = rng.randrange(6)
         T = rng.choice([1, 1, 2, 3, 4])
@@ -318,7 +318,7 @@ def gen_c04(tier, seed):
 def gen_c05(tier, seed):
     rng = random.Random(seed * 2003 + 5)
     out = []
-    N = 500 if tier == "quick" else 10000
+    N = 500 if tier == "quick" else 60000
     for idx in range(N):
         entry = rng.randrange(6)
         T = rng.choice([1, 1, 1, 2, 3, 4])
@@ -453,7 +453,7 @@ def gen_c08_panic(tier, seed):
 def gen_c19(tier, seed):
     rng = random.Random(seed * 503 + 19)
     out = []
-    N = 300 if tier == "quick" else 5000
+    N = 300 if tier == "quick" else 15000
     for idx in range(N):
         entry = rng.randrange(6)
         T = rng.choice([1, 1, 2, 4])
